@@ -25,7 +25,7 @@ def _case(draw):
                    'kl_clip': 1e30, 'lr': 0.1},
             'T': T, 'c': draw(st.integers(1, T)), 'dir_mode': draw(st.booleans()), 'compute_inverses': draw(st.booleans()),
             'data_seed': draw(st.integers(0, 999)), 'schedule': draw(st.lists(st.integers(0, 63), max_size=200)), 'flip': draw(st.booleans()), 'rollback_live': draw(st.booleans()),
-            'heuristic': draw(st.sampled_from(['compute', 'compute', 'memory']))}
+            'heuristic': draw(st.sampled_from(['compute', 'compute', 'memory'])), 'seq': draw(st.sampled_from([0, 0, 2]))}
 
 
 class C18(Prop):
